@@ -289,6 +289,23 @@ def g_sub(rng, n, fmts=('f64', 'f32')):
         else:
             hd = int(d) + rng.choice([-1, 1])
             _emit_decimal(fmt, str(hd), e10, rng, 'G-SUB/+-1', out)
+    # every binade below the smallest subnormal down to 90 bits under it, and every binade of the
+    # last 70 above the overflow threshold: short and long significands (deep underflow must give
+    # +0.0 in every binade, not only next to the threshold; far overflow must give +inf)
+    for _ in range(max(8, n // 6)):
+        fmt = rng.choice(fmts)
+        F = FMT[fmt]
+        p, emax = F['p'], F['emax']
+        emin = 3 - emax - p
+        if rng.below(3):
+            e2 = emin - 2 - rng.below(90)
+        else:
+            e2 = emax + rng.below(70)
+        mant = (1 << 60) + rng.bits(60)           # value in [2^(e2+60), 2^(e2+61))
+        d, e10 = exact_decimal(mant, e2 - 60)
+        keep = rng.choice([1, 2, 3, 8, 16, 17, 19, 20, 25, 40])
+        keep = min(keep, len(d))
+        _emit_decimal(fmt, d[:keep], e10 + len(d) - keep, rng, 'G-SUB/deep', out)
     return out
 
 
